@@ -680,6 +680,55 @@ def spacing_rule(prog, rep):
     rep.floor("separator tests", n, 3)
 
 
+def text_level_rules(prog, rep):
+    """what only the scanners may decide: they are the only code that knows where string literals are"""
+    rep.rule("TEXT", "outside the scanners, no statement is rejected by counting characters of the raw text (`text.count(c)` sees the brackets and quotes inside string literals); a function that splits text at top-level commas tracks the nesting depth of all three bracket kinds ( [ {; no function of the query packages keeps state in a `global`")
+    mods = [m for m in prog.modules.values() if m.name.startswith(("aw_query", "aw_transform"))]
+    n = 0
+    for fi in prog.funcs.values():
+        if fi.mod not in mods:
+            continue
+        # (a) raise guarded by a character count
+        for r in [x for x in walk_own(fi.node) if isinstance(x, ast.Raise)]:
+            p_ = parent(r)
+            while p_ is not None and not isinstance(p_, ast.If):
+                p_ = parent(p_)
+            if p_ is None:
+                continue
+            names = {x.id for x in ast.walk(p_.test) if isinstance(x, ast.Name)}
+            exprs = [p_.test] + [d.value for nm in names for d in local_defs(fi, nm) if getattr(d, "value", None) is not None]
+            cnt = [c for e in exprs for c in ast.walk(e) if isinstance(c, ast.Call) and isinstance(c.func, ast.Attribute) and c.func.attr == "count" and c.args]
+            if cnt:
+                n += 1
+                rep.violation("TEXT", fi.short, f"raise under `{norm(p_.test)[:50]}`", f"the statement is rejected on the strength of `{norm(cnt[0])[:50]}`: counting characters of the raw text also counts the ones inside string literals, so a well-formed program such as `RETURN = \"(\";` is refused", fi.loc(r))
+        # (b) comma splitter
+        for lp in [x for x in walk_own(fi.node) if isinstance(x, ast.For)]:
+            commas = [t for t in ast.walk(lp) if isinstance(t, ast.Compare) and len(t.ops) == 1 and isinstance(t.ops[0], ast.Eq) and isinstance(t.comparators[0], ast.Constant) and t.comparators[0].value == ","]
+            slices = [x for x in ast.walk(lp) if isinstance(x, ast.Call) and isinstance(x.func, ast.Attribute) and x.func.attr == "append" and x.args and isinstance(x.args[0], ast.Subscript) and isinstance(x.args[0].slice, ast.Slice)]
+            if not commas or not slices:
+                continue
+            n += 1
+            opened, closed = set(), set()
+            for br in [x for x in ast.walk(lp) if isinstance(x, ast.If)]:
+                chars = {c.comparators[0].value for c in ast.walk(br.test) if isinstance(c, ast.Compare) and len(c.ops) == 1 and isinstance(c.ops[0], (ast.Eq, ast.In)) and isinstance(c.comparators[0], ast.Constant) and isinstance(c.comparators[0].value, str)}
+                chars |= {ch for c in ast.walk(br.test) if isinstance(c, ast.Compare) and len(c.ops) == 1 and isinstance(c.ops[0], ast.In) and isinstance(c.comparators[0], (ast.Tuple, ast.List, ast.Set)) for e in c.comparators[0].elts if isinstance(e, ast.Constant) and isinstance(e.value, str) for ch in [e.value]}
+                chars |= {ch for c in ast.walk(br.test) if isinstance(c, ast.Compare) and len(c.ops) == 1 and isinstance(c.ops[0], ast.In) and isinstance(c.comparators[0], ast.Constant) and isinstance(c.comparators[0].value, str) for ch in c.comparators[0].value}
+                for st in br.body:
+                    if isinstance(st, ast.AugAssign) and isinstance(st.value, ast.Constant) and st.value.value == 1:
+                        (opened if isinstance(st.op, ast.Add) else closed).update(chars)
+            miss = sorted(({"(", "[", "{"} - opened) | ({")", "]", "}"} - closed))
+            rep.check(not miss, "TEXT", fi.short, "top-level comma splitter", "depth follows ( [ { and ) ] }", f"{fi.short} cuts the text at every comma outside quotes and outside the brackets it counts, but it does not count {miss}: an entry that contains a call with two arguments (`[f(a, b), 1]`) is cut inside the call and the literal no longer parses", fi.loc(lp))
+        # (c) global state
+        for g_ in [x for x in walk_own(fi.node) if isinstance(x, ast.Global)]:
+            written = [nm for nm in g_.names if any(isinstance(x, ast.Name) and x.id == nm and isinstance(x.ctx, ast.Store) for x in walk_own(fi.node))]
+            if written:
+                n += 1
+                rep.violation("TEXT", fi.short, f"global {', '.join(written)}", f"{fi.short} keeps state in the module-level variable(s) {written}: what one query (or one failed parse: an exception between the update and its undo leaves it changed) does shows in all later queries of the process", fi.loc(g_))
+    rep.extra["text_level_sites"] = n
+    if not n:
+        rep.ok("TEXT", "aw_query / aw_transform", "text-level decisions", "no character-count rejection, no comma splitter, no global state", None)
+
+
 def check(prog, rep):
     rep.level = "other"
     rep.explanation = (
@@ -700,6 +749,7 @@ def check(prog, rep):
     values_rule(prog, rep)
     spacing_rule(prog, rep)
     arity_rule(prog, rep)
+    text_level_rules(prog, rep)
     # the value of a call is a function of its arguments: nothing evaluated earlier is remembered
     from .c12 import stateless
 
@@ -733,6 +783,8 @@ def arity_rule(prog, rep):
 
 
 VARIANTS = [
+    ("B statements rejected when bracket counts of the raw text differ", Q2, "def parse(line, namespace):\n", "def parse(line, namespace):\n    if line.count(\"(\") != line.count(\")\"):\n        raise QueryParseException(\"Unbalanced brackets\")\n", "TEXT"),
+    ("B nesting depth kept in a module-level counter", Q2, "def parse(line, namespace):\n", "_depth = 0\n\n\ndef parse(line, namespace):\n    global _depth\n    _depth += 1\n", "TEXT"),
     ("B dict body taken with strip('{}') (eats the braces of a trailing nested dict)", Q2, "        entries_str = string[1:-1]\n        d: Dict[str, QToken] = {}", "        entries_str = string.strip(\"{}\")\n        d: Dict[str, QToken] = {}", "LOOPS"),
     ("B call refused unless the argument count equals the number of required parameters", Q2, "        call_args = [datastore, namespace]\n", "        import inspect\n        required = [p for p in inspect.signature(functions[self.name]).parameters.values() if p.default is inspect.Parameter.empty]\n        if len(self.args) != len(required) - 2:\n            raise QueryInterpretException(\"invalid amount of arguments\")\n        call_args = [datastore, namespace]\n", "ARITY"),
     ("B QFunction.check drops a character (original defect)", Q2, "        if to_consume != 0:\n            return None, string\n        return string[:i], string[i:]", "        if to_consume != 0:\n            return None, string\n        return string[:i], string[i + 1 :]", "PARTITION"),
